@@ -34,7 +34,7 @@ EXPORTS = ([("json", i, dest) for i in range(len(JSON_OPTS)) for dest in ("str",
            [("xml", ft, dest) for ft in (0, 1) for dest in ("str", "text", "binary")] +
            [("rdf", fmt, dest) for fmt in ("trig", "turtle") for dest in ("str", "binary")] +
            [("provn", 0, dest) for dest in ("str", "text", "binary")] +
-           [("get_provn", 0, ""), ("str_records", 0, ""), ("graph", 0, ""), ("eq", 0, ""), ("ne", 0, ""),
+           [("touch", 0, ""), ("touch", 1, ""), ("get_provn", 0, ""), ("str_records", 0, ""), ("graph", 0, ""), ("eq", 0, ""), ("ne", 0, ""),
             ("hash", 0, ""), ("unified", 0, ""), ("flattened", 0, "")] +
            [("dot", i, "") for i in range(len(DOT_OPTS))])
 REQUIRED_CLASSES = {"all": ["export:" + e for e in sorted({x[0] for x in EXPORTS})] + ["twin_text_compared", "rdf_isomorphic_checked", "repeat_compared"]}
@@ -90,6 +90,10 @@ def do_export(d, code, twin):
         s = io.BytesIO()
         d.serialize(s, format=kind, **kw)
         return s.getvalue().decode("utf-8")
+    if kind == "touch":
+        from ..touch import readonly_touch
+        readonly_touch(d, opt, foreign_lookups=False)
+        return None
     if kind == "get_provn":
         return d.get_provn()
     if kind == "str_records":
@@ -133,6 +137,7 @@ def check(case, ctx):
         items.append(_it("twin_differs_before_any_export"))
         return items
     kinds = set()
+    first_text = {}
     n_rec = sum(len(ms) for ms in b.model)
     for sel in case["seq"]:
         code = EXPORTS[sel % len(EXPORTS)]
@@ -163,6 +168,11 @@ def check(case, ctx):
                 items.append(_it("second_call_raises:%s" % kind, exc=type(e).__name__))
                 return items
             ctx.count("repeat_compared")
+            # the same export earlier in this sequence (with other exporters in between) must have given the same text
+            if kind != "rdf":
+                if code in first_text and first_text[code] != text:
+                    items.append(_it("text_changed_after_other_exports:%s" % kind))
+                first_text.setdefault(code, text)
             if kind == "rdf":
                 if text2 != text and not _iso(text, text2, code[1]):
                     items.append(_it("rdf_not_repeatable"))
@@ -182,6 +192,18 @@ def check(case, ctx):
                 items.append(_it("mutated_by_second_call:%s" % kind))
             if items:
                 return items
+    # after the whole sequence the document must still print exactly like a fresh twin that was never exported
+    if not items:
+        fresh = build(case["recipe"]).doc
+        for code in (("get_provn", 0, ""), ("json", 0, "str"), ("xml", 0, "str")):
+            if code[0] == "xml" and why_not_expressible(d):
+                continue
+            try:
+                if do_export(d, code, twin) != do_export(fresh, code, twin):
+                    items.append(_it("prints_differently_after_exports:%s" % code[0]))
+            except Exception as e:  # noqa
+                items.append(_it("export_fails_after_exports:%s" % code[0], exc=type(e).__name__))
+        ctx.count("final_fresh_twin_compared")
     has_rel = any(not m["type"].endswith(("#Entity", "#Agent", "#Activity")) for ms in b.model for m in ms)
     ctx.nontrivial(len(kinds) >= 2 and has_rel and (len(b.scopes) > 1 or any(s.get_default_namespace() is not None for s in b.scopes)))
     return items
